@@ -1,5 +1,195 @@
-import JaqVerif.Core.Machine
-import JaqVerif.Core.Fragment
+/-
+  C01 — compiled filters compute exactly the jq semantics the manual defines.
+
+  Specification: `Core/Sem.lean`  (`eval n L ρ t v`, named scopes, closures, fuel `n`).
+  Implementation model: `Core/Compile.lean` (`compile`) + `Core/Machine.lean` (`run`, `runProg`).
+  `Pre o o'` (Lemmas/C01Out.lean): `o'` equals `o` if `o` did not run out of fuel, otherwise the
+  values of `o` are a prefix of those of `o'`.
+  `cfgF` = the Machine with `cartesian` as the manual prescribes (`MCfg.cartDropsErr = false`;
+  the code as written drops an error of the left operand when the right operand is empty —
+  finding reported by checks/c01.py, repair in design/fixes/C01-cartesian-left-error.diff).
+  `inFragment` (Core/Fragment.lean) = the binder core (stage A of DESIGN §6 C01).
+
+  FULL STATEMENTS (not yet proved; the proved parts below are named `…_partial`):
+
+    theorem run_refines_eval (t : Term) (v : Val) (prelude : List Def) :
+      ∀ n, ∃ m, ∀ m' ≥ m, Pre (eval n 0 (preludeEnv prelude) t v)
+                               (runProg cfgF (compile c01Natives prelude t) m' v)
+    -- for every term of the language (objects, patterns, paths, interpolation, `..`, prelude
+    -- calls, updates via C02) and with the computed `CallType`s executed by the trampoline
+    -- (`tco_invisible`, stage C), not inline.
+
+    theorem run_refined_by_eval …   -- the converse direction (roles of `eval` and `run` exchanged)
+
+    theorem compile_tr_subset (t : Term) cx loc tr st : ∀ x ∈ (term cx loc tr t st).2.1, x ∈ tr
+    -- for every term (proved below for the fragment; all other constructors return `[]`
+    -- syntactically, except `foreach`'s projection with a destructuring pattern and `elif` chains)
+-/
+import JaqVerif.Lemmas.C01Main
+import JaqVerif.Lemmas.C01Tr
+
 namespace Jaq.Core
-theorem placeholder_c01 : True := trivial
+open Jaq
+
+/-! ## lookup: names resolve to the lexically nearest binding (`envRel_lookup`) -/
+
+/-- A variable that the scope finds (nearest binding first) is compiled to the relative index
+at which the run-time environment holds exactly that value; an unbound one is a compile error.
+`Rel` is preserved by every binder (`Rel.v`, `Rel.l`, `Rel.a`, `Rel.sib`, `Rel.par`, `defs_rel`,
+`args_sim`). -/
+theorem envRel_lookup_var {tabf σ loc e} (h : Rel tabf σ loc e) (x : String) (st : St) :
+    match findVar σ x with
+    | some w => ∃ i, (varC loc x st).1 = .var i ∧ e[i]? = some (.val w) ∧ (varC loc x st).2 = st
+    | none => (varC loc x st) = (.id, st.fail x) := by
+  have hl := findVar_rel h x
+  cases hf : findVar σ x with
+  | none => rw [hf] at hl; simp only at hl ⊢; simp [varC, hl]
+  | some w =>
+    rw [hf] at hl; simp only at hl ⊢
+    obtain ⟨pos, h1, _, _, h4⟩ := hl
+    exact ⟨loc.total - pos, by simp [varC, h1], h4, by simp [varC, h1]⟩
+
+/-- the same for labels: `break $x` reaches the number bound by the nearest `label $x` -/
+theorem envRel_lookup_label {tabf σ loc e} (h : Rel tabf σ loc e) (x : String) (st : St) :
+    match findLabel σ x with
+    | some n => ∃ i, (breakC loc x st).1 = .var i ∧ e[i]? = some (.lbl n)
+    | none => (breakC loc x st) = (.id, st.fail x) := by
+  have hl := findLabel_rel h x
+  cases hf : findLabel σ x with
+  | none => rw [hf] at hl; simp only at hl ⊢; simp [breakC, hl]
+  | some w =>
+    rw [hf] at hl; simp only at hl ⊢
+    obtain ⟨pos, h1, _, _, h4⟩ := hl
+    exact ⟨loc.total - pos, by simp [breakC, h1], h4⟩
+
+/-- the same for callables: a filter argument is compiled to the index of its closure (term and
+captured environment related to the scope it was written in); a definition — sibling or parent,
+whatever the call type — to its body, with `skip` leading to the environment of its definition. -/
+theorem envRel_lookup_call {tabf σ loc e} (h : Rel tabf σ loc e) (f : String) (ids : List TermId) (tr : Tr) :
+    match findCall σ f ids.length with
+    | some (.arg t σ') => ∃ i id loc' e', loc.call f ids tr = some (.var i, []) ∧ e[i]? = some (.fn id e') ∧
+        Rel tabf σ' loc' e' ∧ CompiledI tabf loc' t id
+    | some (.defn d σ') => ∃ id skip ct tr' loc', loc.call f ids tr =
+          some (.callDef id (Locals.binds (sigOf d.params) ids) skip ct, tr') ∧
+        Rel tabf σ' loc' (e.drop skip) ∧ DefOK tabf d loc' id
+    | none => loc.call f ids tr = none := by
+  have hl := findCall_rel h f ids.length
+  unfold LookupOK at hl
+  cases hf : findCall σ f ids.length with
+  | none => rw [hf] at hl; simp only at hl ⊢; simp [Locals.call, hl]
+  | some cl =>
+    rw [hf] at hl
+    cases cl with
+    | arg t σ' =>
+      obtain ⟨pos, id, loc', e', h1, _, _, h4, h5, h6⟩ := hl
+      exact ⟨loc.total - pos, id, loc', e', by simp [Locals.call, h1], h4, h5, h6.1⟩
+    | defn d σ' =>
+      obtain ⟨fe, vars, id, loc', h1, h2, _, _, h5, h6, _⟩ := hl
+      obtain ⟨ct, tr'', hcall⟩ := call_defn (tr := tr) h1 h2
+      exact ⟨id, loc.total - vars, ct, tr'', loc', hcall, h5, h6⟩
+
+/-! ## the main refinement -/
+
+/-- **Main refinement, fragment A** (prefix form, no termination hypothesis): whatever the
+definitional semantics delivers with fuel `n` — a complete outcome (values ended by `done`, an
+error, a break, a halt) or the prefix computed before the fuel ran out — the compiled program
+delivers with enough fuel: complete outcomes identical, prefixes extended. -/
+theorem run_refines_eval_partial (t : Term) (h : inFragment t = true) (v : Val) :
+    ∀ n, ∃ m, ∀ m' ≥ m, Pre (eval n 0 [] t v) (runProg cfgF (compile c01Natives [] t) m' v) := by
+  intro n
+  have hI : CompiledI (it cxMain {} [] t {}).2.2.terms {} t (it cxMain {} [] t {}).1 :=
+    compiledI_it h (Ext.refl _) (Nat.le_refl _) (fun _ _ _ => rfl)
+  exact simI_of_simT (sim _ n) 0 [] {} [] t v _ h Rel.nil hI
+
+/-- complete outcomes are reproduced exactly -/
+theorem run_eq_eval_of_complete_partial (t : Term) (h : inFragment t = true) (v : Val) (n : Nat)
+    (hc : (eval n 0 [] t v).stop ≠ .fuel) :
+    ∃ m, ∀ m' ≥ m, runProg cfgF (compile c01Natives [] t) m' v = eval n 0 [] t v := by
+  obtain ⟨m, hm⟩ := run_refines_eval_partial t h v n
+  exact ⟨m, fun m' hm' => (hm m' hm').1 hc⟩
+
+/-- the invariant form used by the induction: any related scope / locals / environment, any
+label counter, any sub-term compiled into the final table -/
+theorem sim_invariant_partial (tabf : List CTerm) (n L : Nat) (σ : Env) (loc : Locals) (e : MEnv) (t : Term)
+    (v : Val) (id : TermId) (h : inFragment t = true) (hrel : Rel tabf σ loc e) (hc : CompiledI tabf loc t id) :
+    ∃ m, ∀ m' ≥ m, Pre (eval n L σ t v) (run cfgF tabf m' L e id v) :=
+  simI_of_simT (sim tabf n) L σ loc e t v id h hrel hc
+
+/-- the frame property of the compiler: it only appends to the table -/
+theorem compile_appends_partial (t : Term) (h : inFragment t = true) (cx : Cx) (loc : Locals) (tr : Tr) (st : St) :
+    ∃ s, (term cx loc tr t st).2.2.terms = st.terms ++ s :=
+  term_ext h cx loc tr st
+
+/-- the set of tail calls a compiled term may return is a subset of the set it was allowed
+(`debug_assert!(tr_.is_subset(tr))` in `iterm_tr`), for every term of the fragment, every
+compile context, locals and table -/
+theorem compile_tr_subset_partial (t : Term) (h : inFragment t = true) (cx : Cx) (loc : Locals) (tr : Tr) (st : St) :
+    ∀ x ∈ (term cx loc tr t st).2.1, x ∈ tr :=
+  tr_subset_aux (sizeOf t + 1) t (by omega) h cx loc tr st
+
+/-! ## corollaries -/
+
+/-- `f op g` behaves as `f as $x | g as $y | $x op $y`: `f` is the outer loop, `g` the inner one,
+an error of `f` or `g` ends the stream where the nested binding would raise it. -/
+theorem math_cartesian_order (l r : Term) (op : MathOp) (hl : inFragment l = true) (hr : inFragment r = true)
+    (v : Val) (n : Nat) :
+    ∃ m, ∀ m' ≥ m, Pre (cartSem (eval n 0 [] l v) (fun _ => eval n 0 [] r v) (mathOp op))
+      (runProg cfgF (compile c01Natives [] (.binop l (.math op) r)) m' v) := by
+  have := run_refines_eval_partial (.binop l (.math op) r) (by simp [inFragment, Bop.inFragment, hl, hr]) v (n+1)
+  rw [eval] at this
+  exact this
+
+/-- the definitional semantics itself says the same as the explicit nested bindings (fresh names) -/
+theorem math_is_nested_binding (l r : Term) (op : MathOp) (ρ : Env) (v : Val) (n L : Nat) :
+    eval (n+3) L ρ (.binop l (.math op) r) v =
+      cartSem (eval (n+2) L ρ l v) (fun _ => eval (n+2) L ρ r v) (mathOp op) := by
+  rw [eval]
+
+/-- shadowing: the nearest binding wins, in the semantics … -/
+theorem shadowing_nearest (x : String) (w : Val) (ρ : Env) : findVar (.var x w :: ρ) x = some w := by
+  simp [findVar]
+
+/-- … and in the compiled program: `w1 as $x | w2 as $x | $x` yields the inner value -/
+theorem shadowing_nearest_compiled (a b : String) (v : Val) :
+    ∃ m, ∀ m' ≥ m, runProg cfgF (compile c01Natives []
+        (.pipe (.num a) (some (.var "$x")) (.pipe (.num b) (some (.var "$x")) (.var "$x")))) m' v
+      = .done [numLit b] := by
+  obtain ⟨m, hm⟩ := run_eq_eval_of_complete_partial
+    (.pipe (.num a) (some (.var "$x")) (.pipe (.num b) (some (.var "$x")) (.var "$x"))) (by simp [inFragment]) v 3
+    (by simp [eval, bindPat, OutG.bind, OutG.done, findVar])
+  refine ⟨m, fun m' hm' => ?_⟩
+  rw [hm m' hm']
+  simp [eval, bindPat, OutG.bind, OutG.done, findVar]
+
+/-- a filter argument is evaluated in the scope of the *call site*, not of the place where the
+parameter is used -/
+theorem closure_captures_definition_env (n L : Nat) (ρ ρ' : Env) (p : String) (t : Term) (v : Val) :
+    eval (n+1) L (.arg p t ρ' :: ρ) (.call p []) v = eval n L ρ' t v := by
+  rw [eval]; simp [findCall]
+
+/-! ## non-vacuity: concrete programs inside the fragment -/
+
+/-- two binders on either side of a definition boundary:
+`def f(g): g, (10 as $x | g + $x); 1 as $y | f($y + .)` -/
+def exBinders : Term :=
+  .defs [.mk "f" ["g"] (.binop (.call "g" []) .comma
+      (.pipe (.num "10") (some (.var "$x")) (.binop (.call "g" []) (.math .add) (.var "$x"))))]
+    (.pipe (.num "1") (some (.var "$y")) (.call "f" [.binop (.var "$y") (.math .add) .id]))
+
+/-- a closure invoked under a deeper label, a `$`-parameter bound as a cartesian product, a
+recursive definition: `label $out | def h($x): $x, if $x then break $out else h(1) end;
+try (h(0, 1), 99) catch (. + 1000)` -/
+def exLabel : Term :=
+  .label "$out" (.defs [.mk "h" ["$x"] (.binop (.var "$x") .comma
+      (.ite [(.var "$x", .brk "$out")] (some (.call "h" [.num "1"]))))]
+    (.tryCatch (.binop (.call "h" [.binop (.num "0") .comma (.num "1")]) .comma (.num "99"))
+      (some (.binop .id (.math .add) (.num "1000")))))
+
+/-- a non-commutative operator with two multi-valued operands: `(1, 2) - (10, 20)` -/
+def exCart : Term := .binop (.binop (.num "1") .comma (.num "2")) (.math .sub) (.binop (.num "10") .comma (.num "20"))
+
+example : inFragment exBinders = true := by decide
+example : inFragment exLabel = true := by decide
+example : inFragment exCart = true := by decide
+
 end Jaq.Core
